@@ -237,7 +237,12 @@ func (c *fctx) pure(e ast.Expr) bool {
 		return true
 	case *ast.CallExpr:
 		b := c.builtin(x)
-		if b == "len" || b == "cap" || b == "min" || b == "max" || b == "append" || c.isConversion(x) {
+		pureFn := false
+		if c.t.funcValueCall(x) != nil { // a function value without slice parameters is a total pure function
+			g := c.t.exprType(x.Fun)
+			pureFn = g.k == kFunc && g.fn.pure && c.pure(x.Fun)
+		}
+		if b == "len" || b == "cap" || b == "min" || b == "max" || b == "append" || c.isConversion(x) || pureFn {
 			for _, a := range x.Args {
 				if !c.pure(a) {
 					return false
@@ -296,6 +301,9 @@ func (c *fctx) expr(e ast.Expr, en *env, k func(string) string) string {
 			}
 			return k(v.name)
 		}
+		if fn := t.funcValueRef(x); fn != nil { // a function of the package used as a value (trans_func.go)
+			return k(c.funcValueTerm(fn, x))
+		}
 		t.fail(x, "identifier %s (not a local variable, parameter or constant)", x.Name)
 	case *ast.SelectorExpr:
 		sel := t.info.Selections[x]
@@ -321,6 +329,11 @@ func (c *fctx) expr(e ast.Expr, en *env, k func(string) string) string {
 	case *ast.BinaryExpr:
 		return c.binary(x, en, k)
 	case *ast.IndexExpr:
+		if id, ok := ast.Unparen(x.X).(*ast.Ident); ok { // f[T] used as a value
+			if fn := t.funcValueRef(id); fn != nil {
+				return k(c.funcValueTerm(fn, x))
+			}
+		}
 		if t.exprType(x.X).k != kSlice {
 			t.fail(x, "index expression on a non-slice")
 		}
@@ -577,6 +590,9 @@ func (c *fctx) call(x *ast.CallExpr, en *env, k func([]string) string) string {
 	default:
 		t.fail(x, "builtin %s", b)
 	}
+	if t.funcValueCall(x) != nil {
+		return c.callFuncValue(x, en, k)
+	}
 	fn, recv := t.calleeOf(x)
 	if fn == nil {
 		t.fail(x, "call of %s (only functions and methods of the translated package, builtins and conversions)", nodeDesc(ast.Unparen(x.Fun)))
@@ -607,6 +623,13 @@ func (c *fctx) call(x *ast.CallExpr, en *env, k func([]string) string) string {
 		}
 		for _, v := range vs {
 			app += " " + v
+		}
+		if back := t.writtenArgs(x); len(back) > 0 { // in-out slice arguments come back after the receiver (trans_func.go)
+			rn := ""
+			if rv != nil && fi.writes {
+				rn = rv.name
+			}
+			return c.bindCall(app, rn, back, len(fi.results), en, x, k)
 		}
 		var rs []string
 		for range fi.results {
